@@ -112,3 +112,41 @@ func ZZ_C20_WaitWithWriter() {
 	zzAccounted(s, "final")
 	vfReach("all-returned")
 }
+
+// ZZ_C20_BarrierWithBusyQueue: the barrier holds for the caller's own earlier writes also while another
+// goroutine keeps the write queue busy: after Wait the removal notification of the caller's Delete has been
+// delivered and its Set is accounted for. (The other writer only touches its own key and causes no eviction.)
+func ZZ_C20_BarrierWithBusyQueue() {
+	var notes []zzNote
+	s := zzThreadedStore(10, &notes)
+	vfSetPreemptions(vfConfig("PRE", 1))
+	done := make(chan int, 2)
+	go func() {
+		for i := 0; i < vfConfig("BUSY", 3); i++ {
+			s.Set(9, uint64(900+i), 1, 0)
+		}
+		done <- 1
+	}()
+	go func() {
+		s.Set(1, 101, 1, 0)
+		s.Set(2, 201, 1, 0)
+		s.Delete(1)
+		s.Wait()
+		delivered := false
+		for _, n := range notes {
+			if n.key == 1 && n.val == 101 && n.reason == REMOVED {
+				delivered = true
+			}
+		}
+		vfAssert("barrier:delete-notification-delivered", delivered)
+		e, ok := s.shards[zzIndex(s, 2)].hashmap[2]
+		vfAssert("barrier:set-accounted", ok && e.policyWeight == 1 && e.meta.prev != nil)
+		done <- 1
+	}()
+	<-done
+	<-done
+	vfSetPreemptions(0)
+	s.Wait()
+	zzAccounted(s, "final")
+	vfReach("all-returned")
+}
